@@ -232,6 +232,16 @@ static eav_result_t *fake_cb (const char *e, size_t l, bool t)
  *   f           eav_free
  *   x<rc>,<buf> inject IDN fault for the following conversions (x0 = off)
  */
+/* when a sanitizer stops the process, what was produced so far must be on disk: the last complete line of the
+ * result file then names the last op that returned, and the op after it is the one that faulted */
+static FILE *g_out, *g_lean;
+extern void __sanitizer_set_death_callback (void (*) (void)) __attribute__ ((weak));
+static void flush_results (void)
+{
+    if (g_out) fflush (g_out);
+    if (g_lean) fflush (g_lean);
+}
+
 static void run_history (FILE *out, char *script)
 {
     eav_t *eav1 = malloc (sizeof *eav1), *eav2 = malloc (sizeof *eav2);
@@ -290,6 +300,8 @@ int main (int argc, char **argv)
 {
     if (argc < 4) { fprintf (stderr, "usage: drive ops results leanops\n"); return 2; }
     FILE *in = fopen (argv[1], "r"), *out = fopen (argv[2], "w"), *lean = fopen (argv[3], "w");
+    g_out = out; g_lean = lean;
+    if (__sanitizer_set_death_callback) __sanitizer_set_death_callback (flush_results);
     if (!in || !out || !lean) { perror ("open"); return 2; }
     /* VERIF_LOCALE=<name>: the process runs in that locale, as an application that called setlocale would */
     if (getenv ("VERIF_LOCALE") != NULL && setlocale (LC_ALL, getenv ("VERIF_LOCALE")) == NULL
